@@ -685,11 +685,27 @@ func main() {
 		w16, w17 := rep("warn", 16), rep("warn", 17)
 		run(base.with(cat(w16, cpre, []string{"SH"}, w16, []string{"Cert", "SKX", "SHD", "ccs", "Fin"})))
 		run(base.with(w17))
+		run(base.with(cat(cpre, []string{"SH"}, w17, []string{"Cert", "SKX", "SHD", "ccs", "Fin"})))
 		run(base.with(cat(cpre, []string{"SH", "Cert", "SKX", "SHD"}, rep("warn", 10), []string{"ccs"}, rep("warn", 6), []string{"Fin"})))
 		run(base.with(cat(cpre, []string{"SH", "Cert", "SKX", "SHD"}, rep("warn", 10), []string{"ccs"}, rep("warn", 7), []string{"Fin"})))
 		sv := caseDesc{stack: st, role: "server", suite: "ecc", mode: "full", auth: "none"}
 		run(sv.with(cat(w16, spre, []string{"CH"}, w16, []string{"CKX"}, w16, []string{"ccs", "Fin"})))
 		run(sv.with(cat(spre, []string{"CH"}, w17)))
+		run(sv.with(cat(spre, []string{"CH"}, w17, []string{"CKX", "ccs", "Fin"})))
+		// 3b. coalescing probes (`A+B` = both handshake messages in ONE record): legal when the
+		// order is legal, but ChangeCipherSpec must be refused while handshake bytes sent before it
+		// are still unread - here the peer's Finished, sent in the clear before ChangeCipherSpec (F34)
+		run(base.with(cat(cpre, []string{"SH+Cert+SKX+SHD", "ccs", "Fin"})))
+		run(base.with(cat(cpre, []string{"SH+Cert+SKX", "CR+SHD", "ccs", "Fin"})))
+		run(sv.with(cat(spre, []string{"CH", "CKX+Fin", "ccs"})))
+		run(sv.with(cat(spre, []string{"CH", "CKX+Fin", "ccs", "Fin"})))
+		rq2 := sv
+		rq2.auth = "request"
+		run(rq2.with(cat(spre, []string{"CH", "Cert+CKX+CV", "ccs", "Fin"})))
+		run(rq2.with(cat(spre, []string{"CH", "Cert+CKX+CV+Fin", "ccs"})))
+		rs := sv
+		rs.mode = "resumed"
+		run(rs.with(cat(spre, []string{"CH", "ccs", "Fin"})))
 		if st == "dtlcp" {
 			// retransmission tolerance: duplicates of the peer's previous flight are dropped, and
 			// (being handshake records) restart the count of ignorable records
